@@ -25,6 +25,10 @@ def main():
     only = a[a.index("--only") + 1].split(",") if "--only" in a else None
     out = a[a.index("--out") + 1] if "--out" in a else os.path.join(VERIF, "sensitivity", "reeval-%s.jsonl" % kind)
     dirs = sorted(glob.glob(os.path.join(VERIF, kind, "C*")))
+    if "--part" in a:
+        # --part i/n : every n-th directory starting with the i-th (for parallel runs)
+        i, n = a[a.index("--part") + 1].split("/")
+        dirs = dirs[int(i)::int(n)]
     if "--update" in a:
         recs = {}
         for l in open(out):
@@ -38,8 +42,13 @@ def main():
             r = recs[i]
             mp = os.path.join(d, "meta.json")
             m = json.load(open(mp))
-            m["checks"] = r["checks"]
-            m["first_violation_reported"] = r["clauses"]
+            checks = dict(m.get("checks", {}))
+            checks.update(r["checks"])
+            m["checks"] = checks
+            cl = {k: v for k, v in m.get("first_violation_reported", {}).items() if checks.get(k) not in ("ok",)}
+            cl.update(r["clauses"])
+            m["first_violation_reported"] = cl
+            r = dict(r, checks=checks)
             m["checks_evaluated_at_verif_rev"] = r["verif_rev"]
             if kind == "seeded":
                 fl = sorted(k for k, v in r["checks"].items() if v == "VIOLATION")
@@ -61,7 +70,14 @@ def main():
             if only and i not in only:
                 continue
             t0 = time.time()
-            r = subprocess.run([os.path.join(VERIF, "tools", "evalmut.py"), os.path.join(d, "patch.diff"), "--no-tests"], capture_output=True, text=True)
+            cmd = [os.path.join(VERIF, "tools", "evalmut.py"), os.path.join(d, "patch.diff"), "--no-tests"]
+            if kind == "seeded" and "--all-props" not in a:
+                # the check of the property the change was written against, plus every check
+                # that reported it before (so that "detected by some check" is re-established)
+                m = json.load(open(os.path.join(d, "meta.json")))
+                props = sorted(set([m["breaks_property"]] + list(m.get("detected_by", []))))
+                cmd += ["--props", ",".join(props)]
+            r = subprocess.run(cmd, capture_output=True, text=True)
             o = r.stdout + r.stderr
             res, clauses = {}, {}
             for l in o.splitlines():
